@@ -62,6 +62,9 @@ package types
 //@ ensures err == nil ==> p.OracleRewardPercentage <= 100
 // C09: the number of sampling tries is converted to int by GetRandomValidators; accepted values must survive that
 //@ ensures err == nil ==> 1 <= p.SamplingTryCount && p.SamplingTryCount <= MaxInt64
+// C15: the inactivity penalty is converted to a time.Duration (int64 nanoseconds) by Activate; accepted values must
+// survive that, or the penalty is negative and never applies
+//@ ensures err == nil ==> p.InactivePenaltyDuration <= MaxInt64
 
 // ---- C01: stateless validation of a data request -------------------------------------------------------------------
 // at least one report is needed to resolve (a request with min_count 0 could never reach its count and would expire
